@@ -75,7 +75,8 @@ def run(ctx):
     s = Session(srv, tr)
     nf = 0
     try:
-        nf += formspaths.run_forms(s, 'multi', 0, subset=forms.FORMS[ctx.seed % 2::2] if ctx.quick else None)
+        blocking = [a for a in forms.FORMS if a[0].upper() in (b'BLPOP', b'BRPOP')]      # queued blocking pops never block: always all of them
+        nf += formspaths.run_forms(s, 'multi', 0, subset=(forms.FORMS[ctx.seed % 2::2] + blocking) if ctx.quick else None)
         nf += formspaths.run_forms(s, 'multi-script', 0, subset=forms.FORMS[ctx.seed % 4::4] if ctx.quick else None)
     except ServerDied:
         tr.emit({'k': 'crash', 'status': srv.exit_status()})
